@@ -20,5 +20,8 @@ func c37MailboxSpecs(r *ev.R) []c37Spec {
 		{Name: "mailbox-w1-q2-mixed-subcancelled", Driver: d, Workers: 1, QSize: 2, KeyMode: "mixed", Order: "bac", SubCtx: "cancelled", Bound: b2},
 		{Name: "mailbox-w1-q2-same-close-expired", Driver: d, Workers: 1, QSize: 2, KeyMode: "same", Order: "abc", CloseCtx: "expired", Latency: true, Bound: b2},
 		{Name: "mailbox-w1-q2-same-batch2wait-close-timeout", Driver: d, Workers: 1, QSize: 2, KeyMode: "same", MBBatch: 2, MBWait: true, Order: "acb", CloseCtx: "timeout", Latency: true, Bound: b2},
+		// producer b submits behind a finishing drain of the same shard; Close only after all submits
+		{Name: "mailbox-w2-q2-same-latency-b-after-drain", Driver: d, Workers: 2, QSize: 2, KeyMode: "same", Order: "abc", Latency: true, BAfterHandled: 2, CloseAfter: 4, Bound: b2},
+		{Name: "mailbox-w2-q2-same-b-after-first-item", Driver: d, Workers: 2, QSize: 2, KeyMode: "same", Order: "abc", Latency: true, BAfterHandled: 1, Bound: b2},
 	}
 }
